@@ -186,6 +186,12 @@ impl C11 {
                         emit(&" ".repeat(k as usize), &mut col, &mut out);
                         kinds.insert("SPC");
                     }
+                    7 if rng.chance(1, 2) => {
+                        // a line feed inside the output: the column starts again
+                        text.push_str("CHR$(10)");
+                        emit("\n", &mut col, &mut out);
+                        kinds.insert("CHR$(10)");
+                    }
                     6 => {
                         text.push_str("POS(0)");
                         let s = format!(" {} ", col);
@@ -236,9 +242,30 @@ impl C11 {
             }
             stmts.push(t);
         }
-        // statements run as separate direct lines half of the time (the column carries over), else one line
+        // the last statement may sit in the taken arm of an IF (a trailing ; or , then stands before ELSE)
+        if rng.chance(1, 3) {
+            if let Some(last) = stmts.pop() {
+                kinds.insert("inside-IF-arm");
+                stmts.push(if rng.coin() {
+                    format!("IF 1 THEN {} ELSE PRINT \"NO\"", last)
+                } else {
+                    format!("IF 0 THEN PRINT \"NO\", ELSE {}", last)
+                });
+            }
+        }
+        // as one direct line, or as a program with one statement per line: the column carries over either way
         let separate = false;
-        let script: Vec<String> = if separate { stmts.clone() } else { vec![stmts.join(":")] };
+        let as_program = rng.chance(1, 3);
+        if as_program {
+            kinds.insert("program-lines");
+        }
+        let script: Vec<String> = if as_program {
+            let mut v: Vec<String> = stmts.iter().enumerate().map(|(i, t)| format!("{} {}", (i + 1) * 10, t)).collect();
+            v.push("RUN".to_string());
+            v
+        } else {
+            vec![stmts.join(":")]
+        };
         if script.iter().any(|l| l.len() > 900) {
             return;
         }
@@ -253,7 +280,10 @@ impl C11 {
                 ctx.violation("no-stop", "print:no-stop", "no return to prompt", &text);
                 return;
             }
-            got.push_str(&transcript(s.events_since(mark), Norm::STD));
+            // typing a program line prints nothing
+            if !as_program || l == "RUN" {
+                got.push_str(&transcript(s.events_since(mark), Norm::STD));
+            }
         }
         // model of what the prompt does between direct lines: forced newline if the column is not 0
         let mut want = String::new();
